@@ -49,6 +49,9 @@ CHECKS = {
     "C16": dict(engine="Dispatch", ref="5/C16",
                 text="TLC (spec/Dispatch.tla) judges data recorded from the live code: over a pool of 150 (thorough 390) parametric types - all components of all registered signatures of every interpretation registry and op dispatcher, plus deep_type of sample objects - the three-valued truth tables of deep_issubclass and of issubclass on typing_wrap'ed types are checked for reflexivity, transitivity (all defined triples), mutual agreement, the named structural laws against the model's SubT (nominal from recorded __mro__, Cls[args] covariance, tuple componentwise/variadic, union-left=all, union-right=some, frozenset covariance), and membership against structural InstOf on recorded object trees. Every dispatch event (argument tuples synthesised for every registered signature plus events observed while evaluating random expressions) is judged: the chosen signature matches and is <= every other matching one. S->C: TLC enumerates all behaviours of the DispatchCache machine (dispatch / clear cache / cold restart, all first-use orders, bounded length); each is replayed on the real dispatcher and the selected function must equal the model's unique most specific rule. Registration order: seeded permutations preserving TLC-computed comparability, fresh dispatchers with per-signature markers.",
                 note="trusted: TLC, the type-to-AST converter and object-tree recorder in harness/dispatchdriver.py, python's __mro__/abc for plain classes, multipledispatch's funcs dict as the list of registered signatures. Undefined pairs (TypeError, ~15%) are excluded and counted. Machine bounds: 5x3 tuples, log length <= 4 (thorough 10x4, <= 5). numpy backend only. Five open findings (ambiguous signature pairs, typing_wrap corner cases)."),
+    "C12": dict(engine="TermMachine", ref="5/C12",
+                text="A Gaussian funsor is an L1 leaf whose denotation is the explicit quadratic -1/2 ||x S - w||^2 over exact rationals (spec/Sem.tla EvalGauss). TLC enumerates Gaussian leaves (full rank, rank deficient, over-complete hence rank-compressed, batched, interleaved orders and shapes of real inputs) under sums of Gaussians, substitution of real values / variables / affine expressions / batched tensors for some or all real inputs, indexing, slicing-free renaming and tensor-indexing of batch inputs, align and Cat along a batch input; every result is evaluated at every sample point of its remaining real inputs and every batch assignment and compared with the table TLC computed; inputs must be among the predicted ones.",
+                note="trusted as C01; sample points {-1, 0, 1/2, 2} (rotations for vector inputs), tolerance 1e-6; one constructor step quick (two, first 60k programs, thorough); keyword parametrisations (mean/info_vec x precision/covariance/scale_tril) are exercised through C13's engine when present; substituting a python float raises AttributeError on the pinned tree (a decline), values are also passed as 0-d Tensors"),
 }
 
 NOT_YET = "check not built yet in this round (planned, see DESIGN.md section 5)"
